@@ -974,3 +974,249 @@ func missingAtOrAbove(b *ssa.BasicBlock, missing func(*ssa.BasicBlock) bool) boo
 	}
 	return false
 }
+
+// ---------------------------------------------------------------- R03.17 the full sync waits for every goroutine that replays a part of it
+
+// ruleFullSyncAwaitsEverySender: sendRdb starts one distributor, one worker per
+// configured lane and (bidirectional, cluster) one global lane; each reports on
+// one channel and sendRdb reads cap(channel) results before it declares the
+// snapshot replayed. The capacity must count every sender: Parallel + (the
+// goroutines started once, unconditionally) + 1 per conditionally started one.
+// One short and sendRdb returns — and cancels the context — while a worker still
+// holds queued entries.
+func ruleFullSyncAwaitsEverySender(w *core.World, r *core.Report) {
+	f := fn(w, r, "(*syncer.RedisOutput).sendRdb")
+	if f == nil {
+		return
+	}
+	var mk *ssa.MakeChan
+	for _, in := range core.OwnInstrs(f) {
+		if m, ok := in.(*ssa.MakeChan); ok {
+			if ch, isCh := m.Type().Underlying().(*types.Chan); isCh && types.Identical(ch.Elem(), types.Universe.Lookup("error").Type()) {
+				mk = m
+			}
+		}
+	}
+	if mk == nil {
+		r.Undecided("sendRdb/awaits-every-sender", f.Pos(), "the result channel of the replay goroutines was not found")
+		return
+	}
+	cell := core.Cell(mk)
+	if cell == nil {
+		// the channel value is stored into the captured variable
+		for _, rf := range *mk.Referrers() {
+			if st, ok := rf.(*ssa.Store); ok {
+				cell = core.Cell(st.Addr)
+			}
+		}
+	}
+	sendsOn := func(g *ssa.Function) bool {
+		for _, h := range core.DeepFuncs(g) {
+			for _, in := range core.OwnInstrs(h) {
+				sd, ok := in.(*ssa.Send)
+				if !ok {
+					continue
+				}
+				if ld, isLd := sd.Chan.(*ssa.UnOp); isLd && cell != nil && core.Cell(ld.X) == cell {
+					return true
+				}
+				if sd.Chan == ssa.Value(mk) {
+					return true
+				}
+			}
+		}
+		return false
+	}
+	// where the results are awaited: a goroutine started on every way there is started "once"
+	var waitAt *ssa.BasicBlock
+	for _, in := range core.OwnInstrs(f) {
+		if c, ok := in.(*ssa.Call); ok && isBuiltin(c, "cap") {
+			waitAt = c.Block()
+		}
+	}
+	if waitAt == nil {
+		r.Fail("sendRdb/awaits-capacity", mk.Pos(), "the number of results sendRdb waits for is not the capacity of the result channel")
+		return
+	}
+	once, perLane, conditional := 0, 0, 0
+	for _, s := range core.SitesNamed(f, false, "pkg/sync.SafeGo") {
+		if s.Instr.Parent() != f || len(s.Args()) == 0 {
+			continue
+		}
+		mc, ok := core.Unwrap(s.Args()[0]).(*ssa.MakeClosure)
+		if !ok {
+			continue
+		}
+		g, ok := mc.Fn.(*ssa.Function)
+		if !ok || !sendsOn(g) {
+			continue
+		}
+		switch {
+		case core.LoopHeadOf(s.Instr.Block()) != nil:
+			perLane++
+		case !s.Instr.Block().Dominates(waitAt):
+			conditional++
+		default:
+			once++
+		}
+	}
+	// the capacity: Parallel + k, with one conditional increment per conditionally started sender
+	k, incs := int64(-1), 0
+	var parse func(v ssa.Value, depth int) bool
+	parse = func(v ssa.Value, depth int) bool {
+		v = core.Unwrap(v)
+		if ph, ok := v.(*ssa.Phi); ok && len(ph.Edges) == 2 && depth < 4 {
+			// base, or base + 1
+			for i, e := range ph.Edges {
+				if b, isB := core.Unwrap(e).(*ssa.BinOp); isB && b.Op == token.ADD && isConstInt(1)(b.Y) && core.Unwrap(b.X) == core.Unwrap(ph.Edges[1-i]) {
+					incs++
+					return parse(ph.Edges[1-i], depth+1)
+				}
+			}
+			return false
+		}
+		b, ok := v.(*ssa.BinOp)
+		if !ok || b.Op != token.ADD {
+			if fieldNameOfLoad(v) == "ReplayRdbParallel" {
+				k = 0
+				return true
+			}
+			return false
+		}
+		c, isK := core.ConstInt(b.Y)
+		if !isK || fieldNameOfLoad(core.Unwrap(b.X)) != "ReplayRdbParallel" {
+			return false
+		}
+		k = c
+		return true
+	}
+	if !parse(mk.Size, 0) || perLane != 1 {
+		r.Undecided("sendRdb/awaits-every-sender", mk.Pos(), "the capacity of the result channel is not of the form ReplayRdbParallel + k (+1 per conditional sender), or the per-lane workers are not started in one loop (per-lane groups: %d)", perLane)
+		return
+	}
+	r.Check(k == int64(once) && incs == conditional, "sendRdb/awaits-every-sender", mk.Pos(), "the full sync waits for cap(result channel) results, and the capacity is ReplayRdbParallel + %d with %d conditional increment(s), while %d goroutine(s) are started once and %d conditionally besides the per-lane workers: sendRdb returns (and cancels the replay) while a worker still holds queued snapshot entries, or waits for a result nobody sends", k, incs, once, conditional)
+	// the wait loop reads cap(channel) results
+	waits := false
+	for _, in := range core.OwnInstrs(f) {
+		c, ok := in.(*ssa.Call)
+		if ok && isBuiltin(c, "cap") {
+			waits = true
+		}
+	}
+	r.Check(waits, "sendRdb/awaits-capacity", mk.Pos(), "the number of results sendRdb waits for is not the capacity of the result channel")
+}
+
+// ---------------------------------------------------------------- R07.8 every flush stores an offset of the one running position
+
+// ruleFlushOffsetsFollowEveryItem: the sender keeps one running position — the
+// end offset of the last item it took from the channel, pings included: the
+// keep-alive flush stores it. Whatever another flush stores must be that
+// position (as of the start of the iteration, or the item just received). A
+// second variable that is advanced only at the end of an item's handling lags
+// behind every ping (`continue`): the barrier flush that follows an idle period
+// writes an offset that is older than what the keep-alive tick stored, and the
+// stored position moves backwards.
+func ruleFlushOffsetsFollowEveryItem(w *core.World, r *core.Report, c *senderCtx) {
+	if c == nil || c.head == nil {
+		return
+	}
+	// the received item's end offset
+	var itemOff ssa.Value
+	for _, in := range core.OwnInstrs(c.main) {
+		v, ok := in.(ssa.Value)
+		if ok && fieldOf("Offset", c.isItemVal)(v) && itemOff == nil {
+			itemOff = v
+		}
+	}
+	if itemOff == nil {
+		r.Undecided("sendCmdsBatch/flush-offsets-follow-every-item", c.main.Pos(), "the end offset of the received item was not found")
+		return
+	}
+	itemBlock := itemOff.(ssa.Instruction).Block()
+	isItemOff := func(v ssa.Value) bool { return fieldOf("Offset", c.isItemVal)(core.Unwrap(v)) }
+	// a loop variable that holds the running position: on every way round the loop that took an item it
+	// becomes that item's offset, on every other way it keeps its value
+	tracked := func(ph *ssa.Phi) (bool, token.Pos) {
+		for i, e := range ph.Edges {
+			pred := c.head.Preds[i]
+			if !c.head.Dominates(pred) {
+				continue // entry: the initial value (judged by R07.1)
+			}
+			tookItem := pred == itemBlock || itemBlock.Dominates(pred)
+			okEdge := true
+			seen := map[ssa.Value]bool{}
+			var visit func(v ssa.Value)
+			visit = func(v ssa.Value) {
+				v = core.Unwrap(v)
+				if seen[v] {
+					return
+				}
+				seen[v] = true
+				if q, isPhi := v.(*ssa.Phi); isPhi && q != ph {
+					for _, e2 := range q.Edges {
+						visit(e2)
+					}
+					return
+				}
+				if tookItem {
+					if !isItemOff(v) {
+						okEdge = false
+					}
+				} else if v != ssa.Value(ph) && !isItemOff(v) {
+					okEdge = false
+				}
+			}
+			visit(e)
+			if !okEdge {
+				return false, pred.Instrs[len(pred.Instrs)-1].Pos()
+			}
+		}
+		return true, token.NoPos
+	}
+	n := 0
+	for _, s := range core.Sites(c.main, false) {
+		if s.Callee != c.send || s.Instr.Parent() != c.main {
+			continue
+		}
+		args, ok := c.flushArgsAt(s)
+		if !ok {
+			continue
+		}
+		n++
+		bad := ""
+		var pos token.Pos = s.Pos()
+		seen := map[ssa.Value]bool{}
+		var visit func(v ssa.Value)
+		visit = func(v ssa.Value) {
+			v = core.Unwrap(v)
+			if seen[v] || bad != "" {
+				return
+			}
+			seen[v] = true
+			if isItemOff(v) {
+				return
+			}
+			if ph, isPhi := v.(*ssa.Phi); isPhi {
+				if ph.Block() == c.head {
+					if okT, at := tracked(ph); !okT {
+						bad = "a flush stores the value of a loop variable that is not advanced on every way round the loop that took an item (for instance the `continue` of a ping, last decision at " + w.Pos(at) + "): it lags behind the position the keep-alive flush stores, and the stored resume position moves backwards"
+					}
+					return
+				}
+				for _, e := range ph.Edges {
+					visit(e)
+				}
+				return
+			}
+			if _, isK := core.ConstInt(v); isK {
+				return // the 'nothing yet' constant: R07.1
+			}
+			bad = "a flush stores an offset that is neither the received item's nor the running position: " + v.String()
+		}
+		visit(args[2])
+		r.Check(bad == "", "sendCmdsBatch/"+c.flushRole(s.Instr)+"/offset-is-the-running-position", pos, "%s", bad)
+	}
+	if n == 0 {
+		r.Fail("sendCmdsBatch/flush-offsets-follow-every-item", c.main.Pos(), "no flush found")
+	}
+}
